@@ -39,6 +39,10 @@ def level_factory(seed, idx, lvl, keys):
 
         r = core.rng_for(seed, ID, idx, "lvl", lvl)
         d = {k: domain.gen_result(r, 1) for k in keys}
+        if idx % 3 == 0 and keys:  # equal-comparing values of different types under different keys
+            twins = [1, 1.0, True, 0.0, -0.0]
+            for n_, k in enumerate(keys):
+                d[k] = twins[(n_ + (lvl if isinstance(lvl, int) else 0)) % len(twins)]
         rn = core.rng_for(seed, ID, idx, "nested", lvl)
         for k in keys:  # now and then a value is a partition itself (built afresh on every call, like any value here)
             if rn.random() < 0.12:
